@@ -365,8 +365,8 @@ func init() {
 			"one `ports.enum` case per prefix (digest of all per-call observations below it against the Lean model; every " +
 			"protocol-respecting node also against the Go transcription of the contract), plus seeded random histories of " +
 			"length 8..60 incl. midi.ListenTo/SendTo, 85% protocol-respecting steps; midicatdrv: batches of seeded random " +
-			"protocol-respecting histories with concurrent senders run by harness_midicat against the stand-in helper, one " +
-			"batch with the helper unstartable. non-trivial = at least one delivery (hist), every enum subtree, every batch " +
+			"protocol-respecting histories with concurrent senders (also overlapping stop/Listen and close/open of the out port) " +
+			"run by harness_midicat against the stand-in helper, plain and under the race detector, one batch with the helper unstartable. non-trivial = at least one delivery (hist), every enum subtree, every batch " +
 			"that delivered messages; distinct by op text",
 		Gen: p17Gen,
 		Run: p17Run,
